@@ -102,6 +102,18 @@ fn check(case: &LedgerCase, obs: &mut Obs) -> Verdict {
         if ties >= 2 { obs.class("tied-yearly-maximum"); }
     }
     if total.notes.len() != ignored { return Verdict::Fail(format!("{} 'ignored' notes for {} rows of other affiliates\n{csv}", total.notes.len(), ignored)); }
+    // the CSV front end lists the ignored transactions too - every one of them, also two alike (two purchases of one security by the same
+    // other affiliate settling the same day): each note line occurs under the two costs tables as often as the render model has it
+    if ignored > 0 && case.rows.len() % 2 == 0 {
+        let w = match crate::observe::run_csv_writer(&files, &opts, true, true) { Ok(t) => t, Err(RunErr::Panic(p)) => return classify_panic(&p, csv), Err(_) => return Verdict::Fail("csv-writer run failed".into()) };
+        let mut firsts: BTreeMap<String, usize> = BTreeMap::new();
+        let mut rdr = csv::ReaderBuilder::new().has_headers(false).flexible(true).from_reader(w.out.as_bytes());
+        for rec in rdr.records().flatten() { if rec.iter().skip(1).all(|c| c.is_empty()) { if let Some(f) = rec.get(0) { *firsts.entry(f.to_string()).or_insert(0) += 1; } } }
+        let mut want: BTreeMap<String, usize> = BTreeMap::new();
+        for n in total.notes.iter().chain(yearly.notes.iter()) { *want.entry(n.clone()).or_insert(0) += 1; }
+        for (n, k) in &want { let got = firsts.get(n).copied().unwrap_or(0); if got < *k { return Verdict::Fail(format!("CSV output lists the note {n:?} {got} time(s); the costs tables have it {k} times (one per ignored transaction)\n{csv}")); } }
+        if want.values().any(|k| *k >= 4) { obs.class("two-ignored-transactions-with-the-same-note"); }
+    }
     if day_max_vs_close { obs.nt("day-max-differs-from-close-then-later-day-without-that-security"); }
     if ignored > 0 { obs.class("rows-of-other-affiliates"); }
     if !case.opening.is_empty() { obs.class("opening-position"); }
